@@ -17,7 +17,7 @@ import (
 
 func init() {
 	Register(&Property{ID: "C18", Run: runC18,
-		Rule: "real Acceptor configured from generated settings (daily StartTime/EndTime incl. overnight, Weekdays subsets; weekly StartDay/EndDay incl. wrap-around and equal days; TimeZone UTC, New_York, London, Lord_Howe, Kolkata, Auckland; a share of runs positioned across a DST change); clock jumps to 6-40 probe instants over 3-16 simulated days, biased to +-(2 s..20 min) around window edges, never within 2 s of an edge; at each probe a valid Logon is attempted (accepted <=> in window), some connections are held across the window's end (logged out within two ticks, not before), store resets between probes <=> different windows. Non-trivial: at least one accepted and one refused probe; distinct: canonical trace hash"})
+		Rule: "real Acceptor configured from generated settings (daily StartTime/EndTime incl. overnight, Weekdays subsets; weekly StartDay/EndDay incl. wrap-around and equal days; TimeZone UTC, New_York, London, Lord_Howe, Kolkata, Auckland; a share of runs positioned across a DST change); clock jumps to 6-40 probe instants over 3-16 simulated days, biased to +-(2 s..20 min) around window edges, never within 2 s of an edge; at each probe a valid Logon is attempted (accepted <=> in window), some connections are held across the window's end (logged out within two ticks, not before), store resets between probes <=> different windows; daily windows with StartTime == EndTime; a quarter of the runs observe an initiator instead (it dials within one reconnect interval exactly when inside a window, also when created outside one); window edges that occur twice (end of DST) are not judged except for the reset rule. Non-trivial: at least one accepted and one refused probe; distinct: canonical trace hash"})
 }
 
 type schedCfg struct {
